@@ -357,3 +357,39 @@ Proof.
   destruct (uniform_conditions P lo hi (q_mw P / q_mass P) cmin lmin lmax) as (U1 & U2 & U3); try assumption; try lra.
   apply run_bounds; try assumption; try lra.
 Qed.
+
+(* ---- homogeneous (0D) model: both stages move the temperature towards the shelf temperature, never beyond it -------- *)
+Section ZeroD.
+  Variable P : @p1d R.
+  Variables area Tsh T w : R.
+  Lemma cool0_between : 0 < q_cp0 P * q_mass P -> 0 <= q_dt P * (area * q_K P) <= q_cp0 P * q_mass P ->
+    Rmin T Tsh <= cool0 Rops P area Tsh T <= Rmax T Tsh.
+  Proof.
+    intros Hd [H0 H1]. unfold cool0. cbn [nadd nsub nmul ndiv Rops].
+    set (th := q_dt P * (area * q_K P) / (q_cp0 P * q_mass P)).
+    assert (Hth : 0 <= th <= 1).
+    { unfold th. split; [apply Rmult_le_pos; [exact H0|left; apply Rinv_0_lt_compat; exact Hd]|].
+      apply Rmult_le_reg_r with (q_cp0 P * q_mass P); [exact Hd|]. unfold Rdiv. rewrite Rmult_assoc, Rinv_l by lra. lra. }
+    replace (T + q_dt P * (area * q_K P * (Tsh - T)) / (q_cp0 P * q_mass P)) with (T + th * (Tsh - T)) by (unfold th, Rdiv; ring).
+    unfold Rmin, Rmax. destruct (Rle_dec T Tsh); split; nra.
+  Qed.
+
+  Lemma solid0_between :
+    let cp := q_cps P * (q_ms P / q_mass P) + q_cpi P * w + q_cpw P * (1 - q_ms P / q_mass P - w) in
+    0 < cp * q_rho P * q_V P -> 0 <= q_Dh P * q_kf P * q_ms P / q_Ms P -> T <> q_Tm P ->
+    0 <= q_dt P * (area * q_K P) <= cp * q_rho P * q_V P ->
+    Rmin T Tsh <= fst (solid0 Rops P area Tsh T w) <= Rmax T Tsh.
+  Proof.
+    intros cp Hd HL HT [H0 H1]. unfold solid0. cbv zeta. cbn [fst nadd nsub nmul ndiv nofZ Rops]. fold cp.
+    set (L := q_Dh P * q_kf P * q_ms P / q_Ms P * (1 / ((q_Tm P - T) * (q_Tm P - T)))).
+    assert (Hsq : 0 < (q_Tm P - T) * (q_Tm P - T)) by (assert (q_Tm P - T <> 0) by lra; nra).
+    assert (HLp : 0 <= L) by (unfold L; apply Rmult_le_pos; [exact HL|unfold Rdiv; rewrite Rmult_1_l; left; apply Rinv_0_lt_compat; exact Hsq]).
+    set (D := cp * q_rho P * q_V P + L). assert (HD : 0 < D) by (unfold D; lra).
+    set (th := q_dt P * (area * q_K P) * (1 / D)).
+    assert (Hth : 0 <= th <= 1).
+    { unfold th. split; [apply Rmult_le_pos; [exact H0|unfold Rdiv; rewrite Rmult_1_l; left; apply Rinv_0_lt_compat; exact HD]|].
+      apply Rmult_le_reg_r with D; [exact HD|]. unfold Rdiv. rewrite Rmult_1_l, Rmult_assoc, Rinv_l by lra. unfold D. lra. }
+    replace (T + q_dt P * (area * q_K P * (Tsh - T)) * (1 / D)) with (T + th * (Tsh - T)) by (unfold th; ring).
+    unfold Rmin, Rmax. destruct (Rle_dec T Tsh); split; nra.
+  Qed.
+End ZeroD.
